@@ -4,6 +4,7 @@ C07 — soft limit: when the eviction callback runs, with what, and the resultin
 (the callback is to be invoked with exactly these guards, then the loop repeats) or performs the lookup.
 -/
 import Lockable.Proofs.Evict
+import Lockable.Proofs.Term
 namespace Lockable
 
 theorem lookup_not_list (s : State) (h k : Nat) (l : List Nat) : (lookup s h k).2 ≠ .list l := by
@@ -143,6 +144,19 @@ theorem C07_rm_not_eligible (s : State) (c : Nat) (hd : Handle) (m : Entry) (hi 
   · simp [eligB, State.removeKey, upd]
   · simp only [eligB, touch_ent]
     simp [State.setEnt, State.dropHandle, upd, handoff]
+
+/-- **The loop ends for a cooperative callback** ("if the callback removes what it is given, the call returns"): with the
+default callback (remove every guard it is given, return Ok) the soft-limit loop always reaches the lookup within the
+fuel the API layer gives it (number of script rounds + number of entries + 2): each round strictly decreases the
+number of evictable entries. Holds from every state satisfying the invariant, for every N ≥ 1, any population,
+any set of keys held or awaited by others. -/
+theorem C07_cooperative_terminates (a : Api) (h k n h0 : Nat) (hn : 1 ≤ n) (hi : Inv a.s)
+    (hfr : a.s.hs h = none) (hlt : h < h0) (hfree : ∀ x, h0 ≤ x → a.s.hs x = none) (hlen : a.s.order.length ≤ supplyLen) :
+    (match (a.lockPrelude h k (.soft n []) h0 (0 + a.s.order.length + 2) []).2.2 with | .ok => True | _ => False) := by
+  apply lockPrelude_terminates h k n hn _ a h0 [] hi hfr hlt hfree hlen
+  have : eligCount a.s ≤ a.s.order.length := by
+    unfold eligCount; exact List.length_filter_le _ _
+  omega
 
 /-- non-vacuity: limit 2, three valued entries one of which is locked: exactly two candidates, in order -/
 example :
